@@ -3,6 +3,18 @@
 import json
 
 ARMED = {
+ "C01": ("SSA must-pass-through on feasible paths (SCCP under ctx.Versioned()), provenance of keys/versions, structural truth tables of the ancestry resolver",
+         "Static decision, for every path, of necessary conditions of 'versioned reads resolve to the nearest ancestor write': every versioned Get/Exists and range scan of each ordered back end returns only what GetBestKeyVersion/VersionedKeyValue selected at the context's own version (R1.1); versioned Put/Delete and their batch forms pair the data-key operation with the same-version tombstone operation in one transaction (R1.2); the dispatcher pins unversioned instances to the repo root and versioned ones to the request uuid's version (R1.3); tombstone/data markers agree between constructors and IsTombstone (R1.4); the resolver never returns a tombstoned or superseded entry, marks ancestors before returning a found value, keeps walking above live entries, and fails on two live candidates (R1.6). Level 'other': the resolver's answer on every DAG shape (value-level) is not decided.",
+         "Trusts go/ssa; Badger transaction atomicity; only back ends compiled in the analysed tag sets.",
+         "DESIGN.md §2 C01"),
+ "C05": ("sibling cross-check of range consumers, boundary-key provenance (def-use roots), edge-dominance and must-flush path search in the versioned scanner",
+         "Static decision of necessary conditions of 'range queries agree with point reads': the five range consumers of each back end agree on scanner dispatch, bound order, keysOnly vs value use and error-before-end-of-stream (R5.1); the versioned scanner seeks at MinVersionKey(beg), compares every key with MaxVersionKey(end) before it can join a group, and uses MaxVersionKey of the current datum as group boundary (R5.2); every pending group is resolved before being dropped or the scan ends, and only resolver output is sent (R5.3); DeleteRange deletes through a batch of the request context by TKey, never raw (R5.4); keyvalue range endpoints use the handler's own context and TKey constructors (R5.5). Level 'other': interval inclusivity, ordering and once-only emission for every key set are value-level and not decided.",
+         "Trusts go/ssa and Badger iterator ordering.",
+         "DESIGN.md §2 C05"),
+ "C07": ("SCCP feasibility + pred-sensitive path search (non-empty range loops) for guard-before-insert, membership-test-before-map-write, persist-after-increment must-pass-through, error-reply-then-mutation path search over handlers",
+         "Static decision of necessary conditions of 'the version DAG stays well formed and identifiers unique': newVersion/merge make a child visible only for committed parents of the same repo, branch-name uniqueness is decided by scanning the DAG (R7.1); assigned UUIDs are entered only after a membership test and every id-counter increment happens under idMutex and is persisted afterwards on every success exit (R7.3); no server handler reaches a datastore mutator after writing an error reply (R7.4); parent/child links are created in mirrored pairs (R7.5); the default branch's reserved name cannot be requested (R7.6). Level 'other': acyclicity/single-rootedness over histories and hideBranch/makeMaster surgery are not decided.",
+         "Trusts go/ssa; lock identity by field name.",
+         "DESIGN.md §2 C07"),
  # id: (technique, level text, level note, design ref)
  "C02": ("SSA sparse conditional constant propagation of gate truth tables + HTTP-method/keyword-specialised write-effect reachability over the VTA call graph",
          "Static, for-all-paths decision of the structural necessary conditions of 'committed versions are immutable': (R2.1) the data-instance dispatcher cannot reach DataService.ServeHTTP for (versioned, non-admin, default mode, locked, IsMutationRequest) and the gate's operands are the request's own uuid/instance/method/keyword; (R2.2) for every compiled data type x endpoint keyword x HTTP method class, any path to a storage write or sync event implies IsMutationRequest is true; (R2.3) every mutating node route is refused on committed nodes by its middleware chain except the child-creating actions, new-instance creation is gated, read-only mode is enforced on every node/repo mux; (R2.4) commit refuses an already committed node and newVersion/merge never link a child under an uncommitted parent. Level 'other': this decides the gate structure for all inputs/configurations, not the read-back-identically clause.",
